@@ -29,14 +29,15 @@ Proved for the continuous conveyor, for EVERY operation / kernel-event sequence 
       entry + capacity·(item_length/speed) + (time it spent stopped by interrupts),
   hence never earlier than the full belt travel time (`cbelt_min_travel`) and exactly the belt travel time when it
   was never stopped (`cbelt_exact_when_never_stopped`); the clock cannot pass a pending travel timer (`cbelt_clock`).
-NOT proved for the continuous conveyor (decided only by the lock-step check and the judge rules `order`, `spacing`,
-  `exit-order`): arrival at the exit in entry order, spacing of successive entries.  Stated here so that the gap is visible.
+  successive items enter at least item_length/speed apart (`cbelt_spacing`, all pairs, full strength).
+NOT proved for the continuous conveyor (decided only by the lock-step check and the judge rules `order`, `exit-order`,
+  `overlap`): arrival at the exit in entry order.  On an accumulating belt whose items are not slot-aligned the order /
+  no-overlap claim is in doubt as the code stands (known finding KF-D29, Props/C13).  Stated here so that the gap is visible.
 Domain of the model: every item has the conveyor's item length; an object is put only while it is not on the belt;
 histories in which `_get_belt_pattern` raises are cut there (`gaveUp`; none in the sampled histories after the repairs).
 -/
 import FsVerif.Proofs.SlotBelt3
-import FsVerif.Proofs.CBeltTime6
-import FsVerif.Proofs.CBeltRoom
+import FsVerif.Proofs.CBeltSpace3
 namespace FsVerif.Props.C12
 open FsVerif SlotBelt
 
@@ -100,6 +101,18 @@ theorem reachC_ti {s : CBelt} (h : ReachC s) : CBelt.TI s := by
 theorem reachC_room {s : CBelt} (h : ReachC s) : CBelt.RoomC s := by
   obtain ⟨cfg, ops, rfl⟩ := h
   exact CBelt.run_roomC ops _ (CBelt.init_roomC cfg)
+
+theorem reachC_inv {s : CBelt} (h : ReachC s) : CBelt.InvC s := by
+  obtain ⟨cfg, ops, rfl⟩ := h
+  exact CBelt.run_invC ops _ (CBelt.init_invC cfg)
+
+/-- successive items enter at least one item length of belt travel (p1 ticks) apart — all pairs, hence successive ones -/
+theorem cbelt_spacing {s : CBelt} (h : ReachC s) :
+    s.entered.Pairwise (fun a b => a.entry + s.cfg.p1 ≤ b.entry) := (reachC_inv h).sp.spaced
+
+/-- a space reservation is granted only when every item that ever entered did so at least p1 ago -/
+theorem cbelt_grant_after_spacing {s : CBelt} (h : ReachC s) (hg : s.putRes ≠ []) :
+    ∀ e ∈ s.entered, e.entry + s.cfg.p1 ≤ s.now := (reachC_inv h).sp.grantOK hg
 
 /-- never more than `capacity` items on the conveyor, granted-unused space reservations included -/
 theorem cbelt_capacity {s : CBelt} (h : ReachC s) : s.putRes.length + (s.items.length + s.ready.length) ≤ s.cfg.cap :=
